@@ -38,6 +38,11 @@ type rangeClient struct {
 	Mac  string `json:"mac"` // hex of the hlen bytes
 	Host string `json:"host_hex,omitempty"`
 	HasH bool   `json:"has_host,omitempty"`
+	// HType != 0: hardware type other than Ethernet (32 = InfiniBand, whose clients send an empty hardware
+	// address and identify themselves by option 61); ClientID: hex of an option 61 sent with every request.
+	// Neither is part of what identifies a client to the range plugin: that is the hardware address.
+	HType    byte   `json:"htype,omitempty"`
+	ClientID string `json:"client_id,omitempty"`
 }
 
 type rangeCase struct {
@@ -156,6 +161,15 @@ func (rangeEngine) Gen(rng *rand.Rand, tier string, i int) any {
 	if i%16 == 7 {
 		c.LockFaultAt = 2 + rng.Intn(6)
 	}
+	if tier == "thorough" && i%48 == 11 {
+		// two pauses of a little over two minutes: clients that were only ever offered an address, or that simply
+		// kept quiet, are still bound when the pool is then exhausted
+		c.SlowRenew = 125000
+		c.Lease = []string{"10m", "1h", "60s"}[rng.Intn(3)]
+		if c.Reqs > 20 {
+			c.Reqs = 20
+		}
+	}
 	if i%12 == 2 {
 		c.FastRepeat = 550 + rng.Intn(400)
 		c.Lease = []string{"10m", "1h", "24h", "60s"}[rng.Intn(4)]
@@ -188,6 +202,20 @@ func (rangeEngine) Gen(rng *rand.Rand, tier string, i int) any {
 		}
 		seen[key] = true
 		cl := rangeClient{Mac: hex.EncodeToString(m)}
+		if rng.Intn(5) == 0 {
+			cl.HType = []byte{32, 32, 6, 1, 255}[rng.Intn(5)]
+		}
+		if rng.Intn(4) == 0 {
+			id := make([]byte, 1+rng.Intn(9))
+			rng.Read(id)
+			if len(c.Clients) > 0 && rng.Intn(2) == 0 {
+				// a client identifier that equals another client's hardware address bytes
+				id, _ = hex.DecodeString(c.Clients[rng.Intn(len(c.Clients))].Mac)
+			}
+			if len(id) > 0 {
+				cl.ClientID = hex.EncodeToString(id)
+			}
+		}
 		if rng.Intn(3) != 0 {
 			cl.HasH = true
 			cl.Host = hex.EncodeToString(hostClasses[rng.Intn(len(hostClasses))])
@@ -252,6 +280,28 @@ func (r *rangeRun) request(cl rangeClient, mt byte) []byte {
 	}
 	p := pkt.Request4(r.xid, mac, mt, opts...)
 	p.Gi = pkt.IP4("10.9.9.9")
+	if r.m != nil && r.xid%4 == 1 {
+		// a relay whose own address lies inside the range being served (relay and clients share the subnet): the
+		// address the pool would hand out next, or any address of the range
+		gi := r.m.Start + uint32(len(r.m.Bind))
+		if r.xid%8 == 5 || uint64(r.m.Start)+uint64(len(r.m.Bind)) > uint64(r.m.End) {
+			gi = r.m.Start + uint32(r.rng.Intn(r.m.N()))
+		}
+		if gi == 0 {
+			gi = r.m.End // (giaddr 0.0.0.0 would mean "not relayed")
+		}
+		p.Gi = [4]byte{byte(gi >> 24), byte(gi >> 16), byte(gi >> 8), byte(gi)}
+	}
+	if cl.HType != 0 {
+		p.HType = cl.HType
+	}
+	if cl.ClientID != "" {
+		id, _ := hex.DecodeString(cl.ClientID)
+		if r.xid%4 == 3 {
+			id = append([]byte{0xff}, id...) // the same machine with another identifier (other OS, reinstalled)
+		}
+		p.Opts = append(p.Opts, pkt.O4(61, id...))
+	}
 	return p.Bytes()
 }
 
@@ -441,7 +491,12 @@ func (rangeEngine) Run(ctx *fw.Ctx, cs any) {
 		key := clientKey(mac)
 		if _, bound := r.m.Bind[key]; bound {
 			for k := 0; k < 2; k++ {
-				time.Sleep(time.Duration(c.SlowRenew) * time.Millisecond)
+				for left := time.Duration(c.SlowRenew) * time.Millisecond; left > 0; left -= 20 * time.Second {
+					time.Sleep(min(left, 20*time.Second))
+					if c.SlowRenew > 30000 {
+						ctx.Note("pause of %d ms between renewals", c.SlowRenew)
+					}
+				}
 				tBefore := time.Now()
 				rep, _, _ := one4(r.s, r.request(cl, 3))
 				r.tr("REQUEST %s after a pause of %dms -> %s", key, c.SlowRenew, repStr(rep))
